@@ -299,13 +299,25 @@ def gen_circuit_focus(rnd):
     return model, plant
 
 
+def pad_model(model, plant, rnd, npad=None):
+    """The same model behind `npad` instantiated variables with their own shared domains: every index that matters (shared
+    domains, variables) lies beyond the range of an 8-bit integer. Returns (model, plant)."""
+    npad = npad if npad is not None else rnd.randint(250, 300)
+    vals = [rnd.randint(-5, 5) for _ in range(npad)]
+    return ({"doms": [[v, v] for v in vals] + [list(d) for d in model["doms"]],
+             "idx": list(range(npad)) + [d + npad for d in model["idx"]], "off": [0] * npad + list(model["off"]),
+             "props": [[[v + npad for v in vs], name, list(p)] for vs, name, p in model["props"]]},
+            vals + list(plant))
+
+
 def restrict(model, plant, rnd, keep_free):
     """The model with every shared domain fixed to its planted value except `keep_free` randomly chosen ones."""
     D = len(model["doms"])
     shared = [None] * D
     for v, (d, o) in enumerate(zip(model["idx"], model["off"])):
         shared[d] = plant[v] - o
-    free = set(rnd.sample(range(D), min(keep_free, D)))
+    open_ = [d for d in range(D) if model["doms"][d][0] < model["doms"][d][1]]
+    free = set(rnd.sample(open_, min(keep_free, len(open_))))
     doms = [list(model["doms"][d]) if d in free or shared[d] is None else [shared[d], shared[d]] for d in range(D)]
     return dict(model, doms=doms)
 
@@ -440,6 +452,9 @@ def run_big(task):
             res["truncated"] = True
             break
         model, plant = gen_big(rnd, task.get("gen"))
+        if it % 3 == 1:
+            model, plant = pad_model(model, plant, rnd)
+            cnt("big.models_behind_250+_instantiated_variables")
         cfg = {"calg": task.get("calg") or rnd.choice(["bc", "bc", "bc", "shaving"]), "vh": rnd.choice(CFG_VH),
                "dh": rnd.choice(CFG_DH)}
         h = case_hash([model, cfg])
@@ -482,10 +497,11 @@ def run_big(task):
             keep(fails)
             cnt("big.ground_satisfying_points")
             for _ in range(3):
-                d = rnd.randrange(len(model["doms"]))
+                open_ = [k for k in range(len(model["doms"])) if model["doms"][k][0] < model["doms"][k][1]]
+                if not open_:
+                    break
+                d = rnd.choice(open_)
                 a, bb = model["doms"][d]
-                if a == bb:
-                    continue
                 cur = pt["doms"][d][0]
                 nv = rnd.choice([x for x in range(a, bb + 1) if x != cur])
                 doms = [list(x) for x in pt["doms"]]
@@ -552,6 +568,9 @@ def run_big_interp(task):
                                              circuit=0.0 if exact else 0.25))
             if it % 3 == 2:
                 model = restrict(model, plant, rnd, rnd.randint(4, 8))
+            if it % 4 == 1:
+                model, plant = pad_model(model, plant, rnd)
+                cnt("big_interp.models_behind_250+_instantiated_variables")
         cfg = {"calg": task.get("calg") or rnd.choice(["bc", "bc", "shaving"]), "vh": rnd.choice(CFG_VH),
                "dh": rnd.choice(CFG_DH)}
         if task.get("circuits"):
